@@ -37,6 +37,8 @@
 //! In-process concurrency (round 5, second pass): first token kS<n>: ONE `Symbolizer` over the HttpSymbolSupplier (wrapped in a
 //!   recording supplier), n concurrent `fill_symbol` calls for the same module in one `join_all`.  The blocks are as usual
 //!   (r= is the result of the supplier call) plus `k=<number of supplier calls>:<classes of the n fill results>`.
+//!   `kS<n> kB ..` / `kS<n> kD ..`: n concurrent locate_file calls on ONE HttpSymbolSupplier (its own slot per (module, kind));
+//!   k=<number of distinct answers>:<k for an answer equal to the first, e otherwise>.
 //!   A location of a redirect chain that ends in `LOOP` redirects to itself for ever (the client gives up).
 //! Shared-cache histories (round 4): first token kM:
 //!   kM <df> <id> <cf> <ci> <pre> <tmo> <nc> <server script>*nc <schedule>
@@ -647,7 +649,19 @@ impl SymbolSupplier for Recording {
 }
 
 /// n concurrent lookups of the same module on ONE Symbolizer (its per-module slot decides who calls the supplier).
-async fn do_concurrent(s: HttpSymbolSupplier, m: &SimpleModule, n: usize, ports: &[u16]) -> String {
+async fn do_concurrent(s: HttpSymbolSupplier, m: &SimpleModule, n: usize, ports: &[u16], kind: Option<FileKind>, cache: &Path) -> String {
+    if kind.is_some() {
+        // files: the HttpSymbolSupplier's own slot per (module, kind) in front of its fetch closure; n concurrent locate_file
+        // calls on ONE supplier.  k=<number of distinct answers>:<k per answer equal to the first, e otherwise>
+        let s = &s;
+        let futs = (0..n).map(|_| do_lookup(s, m, kind, ports, cache));
+        let rs: Vec<String> = futures_util::future::join_all(futs).await;
+        let mut distinct: Vec<&String> = rs.iter().collect();
+        distinct.sort();
+        distinct.dedup();
+        let marks: String = rs.iter().map(|r| if *r == rs[0] { 'k' } else { 'e' }).collect();
+        return format!("{} k={}:{}", rs[0], distinct.len(), marks);
+    }
     let calls = Arc::new(AtomicUsize::new(0));
     let last = Arc::new(Mutex::new(None));
     let sym = breakpad_symbols::Symbolizer::new(Recording { inner: s, ports: ports.to_vec(), calls: calls.clone(), last: last.clone() });
@@ -859,7 +873,7 @@ fn scenario(c: &Case, drop_at: Option<usize>) -> (String, String, usize, bool, u
                 set_fsize(wlim);
             }
             let fut: Pin<Box<dyn Future<Output = String> + '_>> = if c.conc > 0 {
-                Box::pin(do_concurrent(supplier, &module, c.conc, &ports))
+                Box::pin(do_concurrent(supplier, &module, c.conc, &ports, c.kind, &d.cache))
             } else {
                 Box::pin(do_lookup(&supplier, &module, c.kind, &ports, &d.cache))
             };
